@@ -413,3 +413,118 @@ func ruleR047(c *Ctx) {
 		c.Undecided("parser2#string-slicing", token.NoPos, "only %d slice/index expressions on strings found", n)
 	}
 }
+
+// ---------------------------------------------------------------------------
+// R04.8 the end-of-input mark cannot be forged by the input
+
+// ruleR048: peek returns a constant sentinel when the input is exhausted
+// (R04.1). Every consumer takes that constant for the end of the input, so a
+// rune decoded *from* the input must never be returned with that value:
+// otherwise the text behind it is silently ignored. Required shape: behind the
+// last decode of a rune into the cache field, and dominating the return of the
+// cache field, a test `field == sentinel` replaces the value by another
+// constant.
+func ruleR048(c *Ctx) {
+	root := c.Pkg("")
+	if root == nil {
+		c.Undecided("package parser2", token.NoPos, "not found")
+		return
+	}
+	info := root.TypesInfo
+	fd := c.FuncDecl(root, "Tokenizer", "peek")
+	key := "parser2.Tokenizer.peek#sentinel-not-forgeable"
+	if fd == nil {
+		c.Undecided(key, token.NoPos, "peek not found")
+		return
+	}
+	g := c.CFG(fd)
+	// sentinel: the constant returned under len(t.str) == 0
+	var sentinel constant.Value
+	inspectNoLit(fd.Body, func(n ast.Node) bool {
+		r, ok := n.(*ast.ReturnStmt)
+		if !ok || len(r.Results) != 1 {
+			return true
+		}
+		tv := info.Types[r.Results[0]]
+		if tv.Value == nil {
+			return true
+		}
+		for _, gd := range g.Guards(r) {
+			if isLenZeroTest(info, gd.Cond) && gd.Val && sentinel == nil {
+				sentinel = tv.Value
+			}
+		}
+		return true
+	})
+	if sentinel == nil {
+		c.Undecided(key, fd.Pos(), "end-of-input sentinel not found")
+		return
+	}
+	// the cache field: returned by the last statement
+	last, ok := fd.Body.List[len(fd.Body.List)-1].(*ast.ReturnStmt)
+	if !ok || len(last.Results) != 1 {
+		c.Undecided(key, fd.Pos(), "peek does not end with the return of the cached rune")
+		return
+	}
+	cache, ok := ast.Unparen(last.Results[0]).(*ast.SelectorExpr)
+	if !ok {
+		c.Undecided(key, last.Pos(), "peek does not return a field")
+		return
+	}
+	cacheObj := info.Selections[cache].Obj()
+	// decodes into the cache field
+	var lastDecode token.Pos
+	ast.Inspect(fd.Body, func(n ast.Node) bool {
+		as, ok := n.(*ast.AssignStmt)
+		if !ok || len(as.Rhs) != 1 {
+			return true
+		}
+		if call, ok := ast.Unparen(as.Rhs[0]).(*ast.CallExpr); ok && isDecodeRune(info, call) {
+			if l, ok := ast.Unparen(as.Lhs[0]).(*ast.SelectorExpr); ok {
+				if s, ok := info.Selections[l]; ok && s.Obj() == cacheObj && as.Pos() > lastDecode {
+					lastDecode = as.Pos()
+				}
+			}
+		}
+		return true
+	})
+	if !lastDecode.IsValid() {
+		c.Undecided(key, fd.Pos(), "no decode into the rune cache found")
+		return
+	}
+	// the sanitising test
+	found := false
+	for _, s := range fd.Body.List {
+		ifs, ok := s.(*ast.IfStmt)
+		if !ok || ifs.Pos() < lastDecode || ifs.Else != nil || ifs.Init != nil {
+			continue
+		}
+		be, ok := ast.Unparen(ifs.Cond).(*ast.BinaryExpr)
+		if !ok || be.Op != token.EQL {
+			continue
+		}
+		l, ok := ast.Unparen(be.X).(*ast.SelectorExpr)
+		if !ok {
+			continue
+		}
+		if sl, ok := info.Selections[l]; !ok || sl.Obj() != cacheObj {
+			continue
+		}
+		if tv := info.Types[be.Y]; tv.Value == nil || !constant.Compare(tv.Value, token.EQL, sentinel) {
+			continue
+		}
+		for _, b := range ifs.Body.List {
+			if as, ok := b.(*ast.AssignStmt); ok && len(as.Lhs) == 1 && len(as.Rhs) == 1 {
+				if al, ok := ast.Unparen(as.Lhs[0]).(*ast.SelectorExpr); ok {
+					if sl, ok := info.Selections[al]; ok && sl.Obj() == cacheObj {
+						if tv := info.Types[as.Rhs[0]]; tv.Value != nil && !constant.Compare(tv.Value, token.EQL, sentinel) {
+							found = true
+						}
+					}
+				}
+			}
+		}
+	}
+	c.Check(found, key, fd.Pos(), fmt.Sprintf("a rune decoded from the input that equals the end-of-input mark %s is replaced before it is returned", sentinel),
+		fmt.Sprintf("a character of the input that decodes to %s is returned as it is, and every consumer takes %s for the end of the input: the text behind a NUL character is silently ignored (1\\x00*2 parses as 1)", sentinel, sentinel))
+}
